@@ -2,6 +2,7 @@ package engines
 
 import (
 	"fmt"
+	"os"
 	"reflect"
 	"sort"
 	"strings"
@@ -25,6 +26,12 @@ import (
 //             in range                                            (Derived: emucheck … ;; expect malformed=0 ground=1 inrange=1)
 //   split     feed (a ++ b) = feed b ∘ feed a on random splits, also inside sequences and UTF-8 characters
 //                                                                 (Derived: emusame <one W block> || <W a; A b; A c …>)
+//   screen    the bytes the real tScreen writes to a fake Tty (Init, mouse/paste/focus/title, styled content with wide and
+//             combining runes and the bottom-right cell, Show, edits, Show, Sync, Fini) for every ECMA entry: accepted without
+//             complaint; after the last Show the plainly styled cells show what SetContent put there and the cursor is where
+//             ShowCursor put it; after Fini the alternate screen, mouse, paste, focus and keypad modes are off again
+//             (Derived: emucheck at both points; a smoke test of the emulator against real output, the properties
+//             themselves are C01/C04/C09)
 //   mix/bad   random mixes of expanded capabilities, printable payload (ASCII, wide, combining), C0, corruption and
 //             resize ops; unexpanded capability strings (with %), truncated sequences and random bytes: the emulator
 //             answers (never crashes) and the cursor stays in range  (Derived: emucheck … ;; expect inrange=1)
@@ -287,6 +294,15 @@ func genEmu(g *h.Gen) {
 		}
 		g.Emit("%s N caps:%s:all; W %s; F", emuHead(ti, 10, 4, true, ti.AutoMargin), ti.Name, h.Hex([]byte(sb.String())))
 	}
+	// 1b. the real screen over a fake Tty, every ECMA entry
+	os.Setenv("LC_ALL", "en_US.UTF-8")
+	os.Unsetenv("TCELL_ALTSCREEN")
+	for _, ti := range ecma {
+		w, hh := 14, 4
+		if ops, expect, ok := emuScreen(r, ti, w, hh); ok {
+			g.Emit("%s N screen:%s:%s; %s", emuHead(ti, w, hh, true, ti.AutoMargin), ti.Name, strings.ReplaceAll(expect, " ", "^"), strings.Join(ops, "; "))
+		}
+	}
 	// 2. compositionality on random splits
 	for i := 0; i < g.N(400, 6000); i++ {
 		ti := h.Pick(r, ecma)
@@ -344,6 +360,90 @@ func genEmu(g *h.Gen) {
 	}
 }
 
+// emuScreen drives the real terminfo screen over a fake Tty and returns the op list (one W per Tty.Write, `N fin`
+// before the bytes of Fini) and the expectation tokens for the state after the last Show.
+func emuScreen(r *h.Rand, ti *terminfo.Terminfo, w, hh int) (ops []string, expect string, ok bool) {
+	tty := NewFakeTty(w, hh)
+	s, err := tcell.NewTerminfoScreenFromTtyTerminfo(tty, noPad(ti))
+	if err != nil || s.Init() != nil {
+		return nil, "", false
+	}
+	flush := func() {
+		for _, b := range tty.TakeWrites() {
+			if len(b) > 0 {
+				ops = append(ops, "W "+h.Hex(b))
+			}
+		}
+	}
+	s.EnableMouse()
+	s.EnablePaste()
+	s.EnableFocus()
+	s.SetTitle("t€st")
+	plain := map[[2]int]string{}
+	put := func(x, y int, main rune, comb []rune, st tcell.Style, want string) {
+		s.SetContent(x, y, main, comb, st)
+		delete(plain, [2]int{x, y})
+		delete(plain, [2]int{x + 1, y})
+		if want != "" && x < w && y < hh {
+			plain[[2]int{x, y}] = want
+		}
+	}
+	def := tcell.StyleDefault
+	for i, c := range "Hi!" {
+		put(1+i, 0, c, nil, def, fmt.Sprintf("%d/d,d,-,0,d,-/-", c))
+	}
+	if w >= 12 {
+		put(5, 0, '世', nil, def, "19990/d,d,-,0,d,-/-")
+		plain[[2]int{6, 0}] = "-/?/c"
+		put(8, 0, 'e', []rune{0x301}, def, "101,769/d,d,-,0,d,-/-")
+	}
+	styles := []tcell.Style{
+		def.Foreground(tcell.PaletteColor(r.Intn(256))).Background(tcell.PaletteColor(r.Intn(16))),
+		def.Foreground(tcell.NewRGBColor(10, 200, 30)).Bold(true).Italic(true),
+		def.Background(tcell.NewRGBColor(1, 2, 3)).Reverse(true).Dim(true).Blink(true).StrikeThrough(true),
+		def.Underline(true), def.Underline(tcell.UnderlineStyleCurly, tcell.PaletteColor(r.Intn(256))),
+		def.Underline(tcell.UnderlineStyleDouble, tcell.NewRGBColor(9, 8, 7)), def.Url("http://example.com/x").UrlId("u1"),
+	}
+	for i := 0; i < 12; i++ {
+		x, y := r.Intn(w), 1+r.Intn(hh-1)
+		put(x, y, rune('a'+r.Intn(26)), nil, h.Pick(r, styles), "")
+	}
+	put(w-1, hh-1, 'Z', nil, def, "90/d,d,-,0,d,-/-") // bottom-right cell
+	s.ShowCursor(2, 1)
+	s.Show()
+	flush()
+	put(2, 0, 'o', nil, def, "111/d,d,-,0,d,-/-")
+	put(0, hh-1, '世', nil, h.Pick(r, styles), "")
+	s.Show()
+	flush()
+	s.Sync()
+	flush()
+	var cells []string
+	for y := 0; y < hh; y++ {
+		for x := 0; x < w; x++ {
+			if c, found := plain[[2]int{x, y}]; found {
+				cells = append(cells, c)
+			} else {
+				cells = append(cells, "?")
+			}
+		}
+	}
+	d := tcell.VerifDerived(ti)
+	b01 := func(b bool) string {
+		if b {
+			return "1"
+		}
+		return "0"
+	}
+	expect = "malformed=0 ground=1 inrange=1 cursor=2,1 mode.alt=" + b01(ti.EnterCA != "") + " mode.m0=" + b01(ti.Mouse != "") +
+		" mode.m6=" + b01(ti.Mouse != "") + " mode.bp=" + b01(d["enablePaste"] != "") + " mode.fo=" + b01(d["enableFocus"] != "") +
+		" cells=" + strings.Join(cells, " ")
+	ops = append(ops, "N fin")
+	s.Fini()
+	flush()
+	return ops, expect, true
+}
+
 func permEmu(r *h.Rand, n int) []int {
 	p := make([]int, n)
 	for i := range p {
@@ -377,6 +477,21 @@ func execEmu(line string) h.Result {
 		if j := strings.Index(arg, ":"); j >= 0 {
 			res.Tags = append(res.Tags, "entry:"+arg[:j])
 		}
+	case "screen":
+		j := strings.Index(arg, ":")
+		if j < 0 {
+			break
+		}
+		res.Tags = append(res.Tags, "entry:"+arg[:j])
+		fin := strings.Index(payload, "; N fin")
+		if fin >= 0 {
+			res.Derived = append(res.Derived, "emucheck "+payload[:fin]+" ;; expect "+strings.ReplaceAll(arg[j+1:], "^", " "))
+		}
+		am := "0"
+		if f := strings.Fields(payload); len(f) > 3 {
+			am = f[3]
+		}
+		expect = "malformed=0 ground=1 inrange=1 mode.alt=0 mode.cv=1 mode.kp=0 mode.m0=0 mode.m2=0 mode.m3=0 mode.m6=0 mode.bp=0 mode.fo=0 mode.am=" + am
 	case "mix":
 		// a well-formed stream in a UTF-8 locale must not raise a complaint either
 		if f := strings.Fields(payload); len(f) > 2 && f[2] == "1" {
